@@ -17,6 +17,7 @@ CONSTANTS
   UPDENDS = {3, 4, 5, 7, 8}
   MAXUPD = 2
   ADDS <- g_ADDS
+  MAXSTAKE = 1
   SECONDBAD = FALSE
   FAILBUDGET = 2
 INVARIANTS EmitAtDepth
